@@ -128,20 +128,22 @@ def _clear_memos():
             v.cache_clear()
 
 
-def run_history(ops) -> bool:
+def run_history(ops, kinds=None) -> bool:
     """CrossHair replaces functools.lru_cache wrappers by the undecorated function while it traces
     (crosshair/libimpl/functoolslib.py), which would hide exactly the memoisation this property is about.  The solver
-    therefore only chooses the history (operation kinds and titles are realised, one solver query per fork), and the
-    operations themselves run untraced on the real store with the real memo."""
+    therefore only chooses the history (case split by comparisons, one solver query per fork), and the operations themselves
+    run untraced on the real store with the real memo.  `kinds`: the operation codes the symbolic positions (all but the
+    first) range over."""
     from crosshair.tracers import NoTracing, is_tracing
 
+    kinds = list(range(len(OPS))) if kinds is None else kinds
     if is_tracing():
-        # case split by comparisons (not crosshair.realize: a variable that is always realised makes CrossHair realise it
-        # "prematurely", before the precondition bounds it, and that unbounded subtree can never be exhausted)
-        ops = [(_pick(op, len(OPS)), _pick(t, len(TITLES))) for op, t in ops]
+        # not crosshair.realize: a variable that is always realised makes CrossHair realise it "prematurely", before the
+        # precondition bounds it, and that unbounded subtree can never be exhausted
+        ops = [ops[0]] + [(kinds[_pick(op, len(kinds))], _pick(t, len(TITLES))) for op, t in ops[1:]]
         with NoTracing():
             return _run_history(ops)
-    return _run_history(ops)
+    return _run_history([ops[0]] + [(kinds[op], t) for op, t in ops[1:]])
 
 
 def _pick(x, n: int) -> int:
@@ -170,7 +172,9 @@ def describe(ops):
     return "; ".join(out)
 
 
-def replay_history(ops):
+def replay_history(ops, kinds=None):
+    kinds = list(range(len(OPS))) if kinds is None else kinds
+    ops = [ops[0]] + [(kinds[op], t) for op, t in ops[1:]]
     c = Wtp(quiet=True, quiet_output=True)
     global ctx
     saved = ctx
